@@ -1,0 +1,31 @@
+//go:build !verif
+
+// Package verifhook provides simulation hook points. Without the "verif" build
+// tag every function is an empty, inlinable no-op and Enabled is false, so call
+// sites guarded by `if verifhook.Enabled` compile to nothing.
+package verifhook
+
+import (
+	"net"
+	"time"
+)
+
+// Enabled reports whether simulation hooks are compiled in.
+const Enabled = false
+
+// Point marks a durable step or an observation point.
+func Point(ev string, args ...interface{}) {}
+
+// Fault asks the simulator whether an error should be injected at ev.
+func Fault(ev string, args ...interface{}) error { return nil }
+
+// Yield offers the simulator a scheduling decision at ev.
+func Yield(ev string, args ...interface{}) {}
+
+// Dial lets the simulator provide a connection instead of a real socket.
+func Dial(network, addr string, timeout time.Duration) (net.Conn, error, bool) {
+	return nil, nil, false
+}
+
+// Listen lets the simulator provide a listener instead of a real socket.
+func Listen(network, addr string) (net.Listener, error, bool) { return nil, nil, false }
